@@ -7,6 +7,7 @@ from ..alg import Poly, sym
 from ..astutil import up, walk_local, stores, chain, const, calls, paths
 from ..rules import where, path_actions, pickle_state_agreement, getstate_keys
 from ..loader import AnalysisError
+from ..staterules import state_roundtrip
 from ..interp import Interp, Hooks, Arr, Obj, Unk, symarr, num, decide_with, count_atom
 
 EXPLANATION = (
@@ -329,7 +330,7 @@ def run(ctx):
         except KeyError as e:
             ctx.undecided('FLAG-2', 'accepted flag set', where(vs, pred), 'predicate form %s' % e)
     # ---- AGREE-1
-    pickle_state_agreement(ctx, ci)
+    state_roundtrip(ctx, ci)
     td = ctx.fn(repo.func('source.source', 'Source.to_dict'))
     fd = ctx.fn(repo.func('source.source', 'Source.from_dict'))
     wk = getstate_keys(td) or {}
